@@ -1,7 +1,10 @@
 #!/usr/bin/env python3
 """Run the registered quick (or thorough) check of a property against a seeded change.
 
-usage: seed_check.py <seed_id> [<property> ...] [--tier thorough]
+usage: seed_check.py <seed_id> [<property> ...] [--tier thorough] [--in-place]
+--in-place: the patch is applied to /repo ITSELF (git -C /repo apply), the check runs with no VERIF_REPO, and the patch is
+reverted straight afterwards (git -C /repo checkout -- .) - the protocol of the brief; needed for engine E2, whose
+verdicts depend on the path of the tree (DESIGN 0.6).  Only when no other check is running.
 The patch /verif/seeded/<seed_id>/patch.diff is applied to a scratch git worktree of /repo (/tmp/sc,
 never /repo itself) and the check is pointed at it through VERIF_REPO; the verdict (exit code,
 VIOLATION lines, failed obligations) is appended to seeded/<seed_id>/meta.json under "checks".
@@ -22,15 +25,25 @@ def main():
     if "--tier" in a:
         tier = a[a.index("--tier") + 1]
         a = a[:a.index("--tier")] + a[a.index("--tier") + 2:]
+    in_place = "--in-place" in a
+    a = [x for x in a if x != "--in-place"]
     sid, props = a[0], a[1:]
+    global SC
+    if in_place:
+        SC = "/repo"
     sdir = os.path.join(VERIF, "seeded", sid)
     meta = json.load(open(os.path.join(sdir, "meta.json")))
     props = props or [meta["property"]]
-    if not os.path.isdir(SC):
-        sh(f"git -C /repo worktree add -f --detach {SC} HEAD")
-    sh(f"git -C {SC} checkout -- . && git -C {SC} clean -fdq")
-    head = sh("git -C /repo rev-parse HEAD").stdout.strip()
-    sh(f"git -C {SC} checkout -q --detach {head}")   # the seed is applied on top of /repo's current HEAD (fix: commits included)
+    if in_place:
+        if sh("git -C /repo status --porcelain --untracked-files=no").stdout.strip():
+            print("/repo is not clean; refusing to apply a seed in place")
+            return 2
+    else:
+        if not os.path.isdir(SC):
+            sh(f"git -C /repo worktree add -f --detach {SC} HEAD")
+        sh(f"git -C {SC} checkout -- . && git -C {SC} clean -fdq")
+        head = sh("git -C /repo rev-parse HEAD").stdout.strip()
+        sh(f"git -C {SC} checkout -q --detach {head}")   # the seed is applied on top of /repo's current HEAD (fix: commits included)
     r = sh(f"git -C {SC} apply {sdir}/patch.diff")
     if r.returncode != 0:
         print("patch does not apply:", r.stdout)
@@ -46,7 +59,11 @@ def main():
     try:
         for prop in props:
             t0 = time.time()
-            env = dict(os.environ, VERIF_REPO=SC, VERIF_TIER=tier)
+            env = dict(os.environ, VERIF_TIER=tier)
+            if in_place:
+                env["VERIF_EVIDENCE_SCRATCH"] = "1"   # do not overwrite the committed evidence with a run on a patched tree
+            else:
+                env["VERIF_REPO"] = SC
             if only:
                 env["VERIF_ONLY_ENGINE"] = only
             cmd = f"./check {prop}"
@@ -67,11 +84,11 @@ def main():
                     obs.append({"line": v, "error": repr(e)})
             und = [l for l in r.stderr.splitlines() if l.startswith("UNDECIDED")]
             meta.setdefault("checks", {})[f"{prop}:{tier}"] = {
-                "cmd": f"VERIF_REPO=<scratch worktree with patch.diff applied> {cmd}" + (f"   (engines {only}: the patch touches only {'crates/ordinals' if only != 'e2' else 'src/'})" if only else ""), "exit_code": r.returncode,
+                "cmd": (f"git -C /repo apply patch.diff; {cmd}; git -C /repo checkout -- ." if in_place else f"VERIF_REPO=<scratch worktree with patch.diff applied> {cmd}") + (f"   (engines {only}: the patch touches only {'crates/ordinals' if only != 'e2' else 'src/'})" if only else ""), "exit_code": r.returncode,
                 "detected": r.returncode == 1 and bool(viol), "violations": obs, "undecided": und[:6], "wall_s": round(time.time() - t0, 1)}
             print(sid, prop, tier, "rc=%d" % r.returncode, "DETECTED" if r.returncode == 1 and viol else "missed", [o.get("obligation", "")[:90] for o in obs][:4], und[:2])
     finally:
-        sh(f"git -C {SC} checkout -- . && git -C {SC} clean -fdq")
+        sh(f"git -C {SC} checkout -- ." + ("" if in_place else f" && git -C {SC} clean -fdq"))
         json.dump(meta, open(os.path.join(sdir, "meta.json"), "w"), indent=1)
     return 0
 
